@@ -17,8 +17,8 @@ import random
 from harness.common import REPO, main, pool_map
 from harness import tlc
 
-Q = 49152            # = 12 * 4096 length units per unit of real length (mc traces)
-TOL = 64             # comparison slack in 1/Q units (1.3e-3; float32 noise measured <= 0.6 units)
+Q = 3072             # = 12 * 256 length units per unit of real length (mc traces)
+TOL = 8              # comparison slack in 1/Q units (2.6e-3): rounding <= 0.5, float32 noise measured <= 0.05
 LIM = 2 ** 31 - 1
 
 MC_CFG = """SPECIFICATION Spec
